@@ -153,6 +153,10 @@ func ckBigContents(b *ckBigSpec) [][2]bstr {
 
 // ckBigSteps builds the restore schedule once the number of chunks is known.
 func ckBigSteps(b *ckBigSpec, n int) []ckStep {
+	if n == 0 {
+		// a checkpoint without chunks: nothing can be restored; the begin event (nchunks = 0, union incomplete) is the observation
+		return nil
+	}
 	r := ckBigRand(b, 3)
 	perm := func() []int {
 		p := r.Perm(n)
